@@ -51,6 +51,10 @@ CHECKS = {
          "explicit-state search over operation histories on live runners; state = residue vector (descriptor classes, children, goroutines of the host process; descriptors and children of the container init; live program processes), compared with the baseline after every operation",
          "Operations: container runs of process trees (plain, signal-ignoring, double-forked daemon, setsid, setpgid, parent-outliving children, depth up to 3) ending by exit / fatal signal / cancellation with sync before and after exec; callbacks that fail, also after the program has built its tree (sync after exec); launches failing before and after the sync point; open ok / mixed / empty, delete, symlink, reset, ping; build+destroy of a second environment; ptrace and namespace runs of trees with the same endings; failing launches of both. Every single operation is run from the baseline state on a fresh environment, three long chains run all operations in different orders on one environment (thorough: every operation followed by each of eight representatives). After each operation the vector must return to the baseline (polled up to the horizon); every history ends with a Destroy that must return and reap the init.",
          "Because every operation returns to the baseline state, longer histories add no new states (the frontier closes at depth 1); chains and pairs are run anyway. Files left in the container's tmpfs are state, not residue (C13)."),
+ "C14": ("exploration",
+         "bounded-exhaustive enumeration of Open / Symlink / Delete batches over item classes on a real container whose tmpfs is prepared from the host side with planted objects; per-index oracle (error iff the class must fail; returned descriptor identical to the object at that path, requested mode, close-on-exec) plus bounded return and protocol health",
+         "Open: every batch of length 0..3 (thorough: 0..4) over 14 item classes: new file with and without MkdirAll, missing parent, existing regular file read-only / write+truncate / read-write, planted symlink to a regular file / to a host file / dangling with O_CREAT, FIFO opened for reading and for writing, socket, directory, MkdirAll blocked by a planted file; batches of 253, 254 and 300 new files. Symlink: every batch of length <=3 (4) over {new, existing path, missing parent}. Delete: file, empty directory, non-empty directory, missing path, planted symlink (the target must survive). The k-th result must be an error iff item k's class must fail, a returned file must have the (dev, ino) of the object at path k as seen through /proc/<init>/root, the requested access mode and close-on-exec; the call must return within the horizon; a following Ping must succeed; nothing may be created through a planted link.",
+         "Device nodes and unreadable files are not in the alphabet (the init is root in its user namespace; mknod is not permitted there). Objects are planted by the harness through /proc/<init>/root, which has the same effect as a previous program."),
  "C15": ("exploration",
          "bounded-exhaustive enumeration of hostile syscall arguments (one operation per run) and of SIGKILL instants at every tracer step, on a real tracer and tracee; oracle: the result is a verdict about the program, never Runner Error, and the run returns",
          "Every traced path syscall (25) x pointer kind for every path argument {NULL, unmapped, kernel half, odd, short string, 4095/4096/4097/8192 bytes without NUL, string ending exactly at / crossing into a PROT_NONE page} x dirfd encoding {AT_FDCWD, 64-bit garbage, (thorough) -1, closed, zero-extended AT_FDCWD} x {soft-ban-all, allow-all policy}; syscall numbers unknown / negative / x32 / above 2^32; unreadable, short and NULL open_how; and a fork+thread program in which the main process or the most recently reported task is SIGKILLed at the k-th tracer step for every k (each Debug call of the tracer loop, including 'before PTRACE_SETOPTIONS' and 'between trap and skip').",
